@@ -1,5 +1,5 @@
 """C01 -- CoAP datagram codec: lossless round trip, RFC 7252 section 3 format, total parsing."""
-from vf.api import Obligation
+from vf.api import Obligation, pick
 
 META = {
     "explanation": "Differential harnesses: aiocoap's Message/Options/option-type codecs against a reference RFC 7252 section 3 "
@@ -310,6 +310,43 @@ def mk_single(vlen, with_payload, cf=False, chunk=None):
     return make
 
 
+EXT_DELTAS = [10, 18, 22, 268, 269, 270, 400, 65000]      # unassigned numbers (opaque format): the delta equals the number
+EXT_LENS = [12, 13, 14, 100, 268, 269, 270, 300]
+
+
+def mk_ext_boundaries(reach):
+    """one option whose number (= delta) and value length sit at / around the 12/13/268/269 boundaries, so that the delta
+    extension and the length extension are both present and differ; first value bytes symbolic"""
+    Code, Type, OptionNumber, ContentFormat = _common()
+    from aiocoap.options import Options
+    from aiocoap.message import Message
+    from vf import refcodec
+    from aiocoap.optiontypes import OpaqueOption
+    for n in EXT_DELTAS:
+        assert OptionNumber(n).format is OpaqueOption and OptionNumber(n + 14).format is OpaqueOption
+    restore = _snap()
+    FILL = bytes((i * 5 + 1) % 256 for i in range(400))
+
+    def h(di: int, li: int, second: bool) -> None:
+        assert 0 <= di < len(EXT_DELTAS) and 0 <= li < len(EXT_LENS)
+        restore()
+        n = pick(EXT_DELTAS, di)
+        ln = pick(EXT_LENS, li)
+        val = FILL[:ln]                 # value content is covered by the single-option obligations; here the field widths matter
+        opts = [(n, val)] + ([(n + 14, b"zz")] if second else [])
+        area = refcodec.ref_encode_options(opts) + b"\xffPL"
+        o = Options()
+        rest = o.decode(area)
+        assert rest == b"PL"
+        lst = list(o.option_list())
+        assert [(int(x.number), bytes(x.encode())) for x in lst] == opts, "extended delta / length fields read in the wrong order or width"
+        assert o.encode() + b"\xffPL" == area
+        m = Message.decode(bytes([0x40, 0x01, 0x12, 0x34]) + area)
+        assert m.payload == b"PL" and [(int(x.number), bytes(x.encode())) for x in m.opt.option_list()] == opts
+        assert not reach, "reach"
+    return h
+
+
 def mk_area_total(L, first_lo, first_hi):
     """fully symbolic option area of L bytes whose first byte lies in [first_lo, first_hi)"""
     def make(reach):
@@ -609,6 +646,9 @@ def obligations(tier):
                     symbolic={"option number": "index over %s catalogue numbers" % ("all %d" % (len(CATALOGUE) - 2) if chunk is None else "every 4th of the"),
                               "value": "%d bytes" % vlen, "payload": "1 byte" if wp else "none"},
                     concrete={"option header bytes": "computed by the reference encoder for each catalogue number"}))
+    obs.append(Obligation("ext-boundaries", mk_ext_boundaries, 280 if q else 900, functions=["options.Options.decode/encode", "options._read/_write_extended_field_value", "message.Message.decode"],
+                          symbolic={"option number (delta)": "index over %s" % EXT_DELTAS, "value length": "index over %s" % EXT_LENS,
+                                    "followed by a second option": "bool"}))
     # fully symbolic short option areas, split by first byte over the workers
     splits = [(i, i + 16) for i in range(0, 256, 16)]
     obs.append(Obligation("area-total-L1", mk_area_total(1, 0, 256), T, functions=["options.Options.decode/encode"],
